@@ -23,7 +23,7 @@ VERIF = os.path.dirname(os.path.dirname(os.path.abspath(__file__)))
 # that work on one property can be done against a scratch worktree of /repo without disturbing the others.
 REPO = os.environ.get('VERIF_REPO', '/repo')
 BUILD = os.environ.get('VERIF_BUILD', os.path.join(VERIF, '.build'))
-COQ = os.path.join(VERIF, 'coq')
+COQ = os.environ.get('VERIF_COQ', os.path.join(VERIF, 'coq'))   # override: seed testing in parallel lanes only
 HARNESS = os.environ.get('VERIF_HARNESS', os.path.join(VERIF, 'harness'))
 SHARED_LOCKS = os.path.join(VERIF, '.build')
 NPROC = 16
@@ -49,7 +49,7 @@ class Lock:
     def __init__(self, name):
         os.makedirs(BUILD, exist_ok=True)
         os.makedirs(SHARED_LOCKS, exist_ok=True)
-        self.path = os.path.join(SHARED_LOCKS if name == 'coq' else BUILD, name + '.lock')
+        self.path = os.path.join(SHARED_LOCKS if (name == 'coq' and 'VERIF_COQ' not in os.environ) else BUILD, name + '.lock')
 
     def __enter__(self):
         self.f = open(self.path, 'w')
